@@ -219,7 +219,12 @@ pub fn syntax_to_semantic<T: SourceTrait>(
             // But I have not made much of an attempt to do so.
             synast::Stmt::Include(include) => {
                 let file: synast::FilePath = include.file().unwrap();
-                let file_path = file.to_string().unwrap();
+                let Some(file_path) = file.to_string() else {
+                    // The path literal contains an invalid escape sequence. The parser skipped
+                    // this include for the same reason, so `included_iter` is not advanced.
+                    context.insert_error(InvalidFilename, &file);
+                    continue;
+                };
                 if file_path == "stdgates.inc" {
                     // We do not use a file for standard library, but rather create the symbols.
                     context.standard_library_gates(&include);
